@@ -336,7 +336,9 @@ Definition fits (e : ty) (v : val) : bool :=
    for named complex leaves. *)
 Definition write_leaf (p : pkg) (k : fkind) (lt : ty) (v : val) : outcome val :=
   match k with
-  | FkStrSlice _ | FkIntSlice _ _ | FkStrMap | FkStrSet | FkStrSliceMap | FkIP => Ok v
+  | FkStrSlice _ | FkIntSlice _ _ | FkStrMap | FkStrSet | FkStrSliceMap | FkIP =>
+      (* held as it is; behind a user-declared pointer to a slice or map as a pointer to it *)
+      match lt with TPtr _ => Ok (VPtr v) | _ => Ok v end
   | _ =>
       match lt with
       | TPtr e =>
